@@ -542,7 +542,7 @@ func c13Stall(r *rng, id string) {
 		}()
 		select {
 		case <-done:
-		case <-time.After(3 * time.Second):
+		case <-time.After(10 * time.Second):
 			bads = append(bads, fmt.Sprintf("handler-parked-on-silent-peer:cut%d/%d:label%d", cut, len(data), len(c.label)))
 		}
 		a.Close()
